@@ -773,7 +773,10 @@ fn main() {
         };
         let verdict = if loose(&s) != loose(&p) {
             Err("replicas / swap count differ between serial and parallel tempering step".to_string())
-        } else if nrep >= 2 && obs_tc(&s) != obs_tc(&p) {
+        } else if obs_tc(&s) != obs_tc(&p) {
+            // every number of replicas, ONE included: since fix f20b8b5 (finding F30) the rayon step returns early for
+            // <= 1 replica like the serial one; before, it drew the phase-order word with one replica, and a container
+            // that later received a second replica made different swap decisions under the two drivers
             Err("container state (RNG / caches) differs between serial and parallel tempering step".to_string())
         } else {
             // and the next sampling run returns the same from both
